@@ -30,6 +30,9 @@ type Stmt struct {
 	// PollAfterErr: issue the Extra polls even when the drain ended with an error
 	// (used only where a property speaks about polls after a failed write).
 	PollAfterErr bool `json:"poll_after_err,omitempty"`
+	// KeepGoing: a caller that logs a failed poll and polls on; up to this many
+	// errors are recorded as marker rows and the drain continues.
+	KeepGoing int `json:"keep_going,omitempty"`
 }
 
 type Client struct {
@@ -244,10 +247,18 @@ func execStmt(h *Handle, idx int, st Stmt, cfg Config) (res StmtRes) {
 	if st.Mode == ModeBatch {
 		kind = "batch"
 	}
+	nErr := 0
 	for {
 		pr, end := poll(kind)
 		res.Polls = append(res.Polls, pr)
 		res.Rows = append(res.Rows, pr.Rows...)
+		if pr.Err != "" && pr.Panic == "" && nErr < st.KeepGoing && !res.StepCap {
+			nErr++
+			res.Rows = append(res.Rows, []string{"!error"})
+			if len(res.Polls) < maxPolls {
+				continue
+			}
+		}
 		if pr.Err != "" && res.Err == "" {
 			res.Err = pr.Err
 		}
